@@ -104,8 +104,8 @@ TEXT = {
         "engine": "vmux (SIM)",
         "technique": "runtime monitor on virtual timestamps of the wire tap: ping schedule, timeout bounds, pending-operation outcomes; (I,T) grid enumerated",
         "design_ref": "DESIGN.md §4 C16, appendix A",
-        "level_text": "All (I,T) pairs of the grid x 6 pong-script kinds are executed in virtual time against a scripted raw peer; Ping times must be exactly k*I, a timeout needs >= T' of silence and must come within T'+I of the last pong for a silent peer, answered-in-time and disabled runs reach a 2000-interval horizon, and after the timeout every pending operation resolves.",
-        "level_note": "Virtual time makes the bounds exact; delays inside the grid cells are seeded samples.",
+        "level_text": "All (I,T) pairs of the grid x 9 pong-script kinds (constant, random and per-ping delays <= T, busy executor, silent after k rounds, never, late, disabled) are executed in virtual time against a scripted raw peer; Ping times must be exactly k*I, a timeout needs >= T' of silence and must come within T'+I of the last pong for a silent peer, answered-in-time and disabled runs reach a 2000-interval horizon, and after the timeout every pending operation resolves.",
+        "level_note": "Virtual time makes the bounds exact; delays inside the grid cells are seeded samples. One open known finding (variable answer delays within T), see known_findings.json and DESIGN.md 7.5.",
     },
     "C10": {
         "engine": "vmux (SIM)",
@@ -116,44 +116,44 @@ TEXT = {
     },
     "C12": {
         "engine": "vmux (MICRO, Miri in thorough)",
-        "technique": "runtime monitor over hook-level interleavings: turn-taking scheduler enumerates every total order of hook events on real threads; Miri (UB / data-race / weak-memory interpreter) on a sample",
+        "technique": "runtime monitor over hook-level interleavings: turn-taking scheduler enumerates every total order of hook events on real threads; free-running two-thread stress judged by exact credit conservation; Miri (UB / data-race / weak-memory interpreter) on a sample",
         "design_ref": "DESIGN.md §4 C12, appendix A",
-        "level_text": "All total orders of the hook events of 1-2 writer polls against acknowledge and/or close on other threads are executed for real (30 configurations, depth-first by replay) and judged by the final-state oracle W1-W4 (conservation, no lost wake-up, fail after close, frame only with credit). Exhaustive at hook granularity in the thorough tier; exploration below that granularity.",
+        "level_text": "All total orders of the hook events of 1-2 writer polls against acknowledge and/or close on other threads are executed for real (30 configurations, depth-first by replay) and judged by the final-state oracle W1-W4 (conservation, no lost wake-up, fail after close, frame only with credit). A free-running writer thread against a granting thread (20 000 grants per round) is judged by exact conservation. Exhaustive at hook granularity in the thorough tier; exploration below that granularity.",
         "level_note": "Interleavings between hook points and non-x86 memory-model behaviours are only sampled (Miri, repeated native runs).",
     },
     "C13": {
         "engine": "vmux (SIM)",
         "technique": "runtime monitor of the real bridge future over a scripted local stream and a real endpoint pair; position-addressed data, credit monitor, outcome and promptness oracle in virtual time",
         "design_ref": "DESIGN.md §4 C13, appendix A",
-        "level_text": "Each execution drives into_copy_bidirectional_with_buf with a seeded script of chunk sizes, Pending points (woken / never woken), partial writes, EOF and error positions on read/write/flush/shutdown, against a far application that finishes, aborts or starves; bytes, counts, half-close propagation, credit use and prompt error completion are checked.",
+        "level_text": "Each execution drives into_copy_bidirectional_with_buf with a seeded script of chunk sizes, Pending points (woken / never woken), partial writes, EOF and error positions on read/write/flush/shutdown, against a far application that finishes, aborts or starves; bytes, counts, half-close propagation (Finish on the wire within 3 ms of virtual time after the local EOF, with or without credit), credit use in both directions (every Push has a unit, every unit became a Push) and prompt error completion are checked.",
         "level_note": "Promptness is decided by quiescence in virtual time, not by wall clock.",
     },
     "C14": {
         "engine": "ve2e (E2E)",
         "technique": "differential runtime monitor over real sockets: every request cell is sent to a real run_listener and compared with an independent decision predicate and with the unknown-path twin response",
         "design_ref": "DESIGN.md §4 C14",
-        "level_text": "All request cells with at most two deviations from the valid upgrade (1 082 per configuration) x 8 server configurations are sent as raw HTTP/1.1 over loopback; 101 iff the predicate, accept hash from our own SHA-1, a Ping must be answered behind every 101; every refused /ws (and /health, /version under obfs) response must equal the unknown-path response byte for byte (minus date) and the stub backend must have seen the same request.",
+        "level_text": "All request cells with at most two deviations from the valid upgrade (1 082 per configuration) x 8 server configurations are sent as raw HTTP/1.1 (and HTTP/1.0) requests over loopback; 101 iff the predicate, accept hash from our own SHA-1, a Ping must be answered behind every 101; every refused /ws (and /health, /version under obfs) response must equal the unknown-path response byte for byte (minus date) and the stub backend must have seen the same request.",
         "level_note": "Cells with more than two deviations are sampled; HTTP/2 and TLS front-ends are not exercised here.",
     },
     "C17": {
         "engine": "ve2e (E2E)",
         "technique": "runtime monitor over real TLS handshakes: full configuration matrix executed through run_listener + tls_connect, recording client-certificate resolver, identity reload with a live connection",
         "design_ref": "DESIGN.md §4 C17",
-        "level_text": "All 72 cells of the statement's matrix are executed as real handshakes followed by an HTTP exchange and compared with the reference truth table; a recording resolver observes whether the server asks for a certificate; reload cycles check that new handshakes see the new identity while an established connection keeps working. Exhaustive over the matrix.",
+        "level_text": "All 72 cells of the statement's matrix are executed as real handshakes followed by an HTTP exchange and compared with the reference truth table; a recording resolver observes whether the server asks for a certificate; reload cycles (through reload_tls_identity, and through the operator's path server_main + replaced files + SIGUSR1, three or more in a row, with and without a client CA) check that new handshakes see the new identity, that the client-certificate policy is unchanged after every reload, and that an established connection keeps working. Exhaustive over the matrix.",
         "level_note": "Key types: ECDSA P-256 (quick), plus P-384 and Ed25519 (thorough); native-tls build is not exercised.",
     },
     "C19": {
         "engine": "ve2e (E2E) + vmux (PURE)",
-        "technique": "fault enumeration per connection attempt through a scripted gate in front of a real server, timing oracle with quiescence witness; exhaustive differential check of the back-off generator",
+        "technique": "fault enumeration per connection attempt through a scripted gate in front of a real server, timing oracle with load / quiescence witnesses; exhaustive differential check of the back-off generator",
         "design_ref": "DESIGN.md §4 C19",
         "level_text": "Each script of per-attempt server behaviours is executed against the real client several times; attempt counts, lower/upper delay bounds against the reference back-off, exit conditions, listener availability, survival of a local conversation across an outage / stream-request timeout and self-reconnect after an orderly Close are checked. The back-off generator itself is compared exhaustively with a reference over small tuples and reset patterns.",
-        "level_note": "Real time: upper bounds are tolerant and fall back to inconclusive; scripts are a fixed set plus seeded ones in thorough.",
+        "level_note": "Real time: upper bounds are tolerant, need 5 late repeats with a punctual-timer load witness, and otherwise fall back to inconclusive; scripts are a fixed set plus seeded ones in thorough.",
     },
     "C01": {
         "engine": "ve2e (E2E)",
         "technique": "runtime monitor over real client/server executions on loopback: scripted local clients and targets, position-addressed payloads, per-conversation byte-stream and end-of-direction oracle, UDP tag/source/duplicate/header oracle",
         "design_ref": "DESIGN.md §4 C01",
-        "level_text": "Conversations of six kinds enter through all eight TCP entry kinds (fixed port, Unix socket, SOCKS4/4a, SOCKS5 v4/v6/domain, HTTP CONNECT) with seeded sizes (0 to several windows), chunking and concurrency; UDP exchanges run through the UDP remote and SOCKS5 UDP ASSOCIATE with several local sockets at once. Every received byte is checked against the sender's position-addressed stream, half-close and close propagation are checked per direction, UDP replies per socket. Exploration under the OS scheduler.",
+        "level_text": "Conversations of six kinds enter through all eight TCP entry kinds (fixed port, Unix socket, SOCKS4/4a, SOCKS5 v4/v6/domain, HTTP CONNECT) with seeded sizes (0 to several windows), chunking and concurrency; UDP exchanges run through the UDP remote and SOCKS5 UDP ASSOCIATE with several local sockets at once, each association addressing two different targets. Every received byte is checked against the sender's position-addressed stream, half-close and close propagation are checked per direction, UDP replies per socket. Exploration under the OS scheduler.",
         "level_note": "No schedule control on real sockets; a hang needs a /proc quiescence witness, otherwise the run is inconclusive.",
     },
 }
